@@ -64,10 +64,19 @@ def declare_inputs(mk, module, fname, ptr_bits=PTR_BITS, symbolic_globals=True):
     return dict(args=args, bufs=bufs, glob=glob, ext=ext)
 
 
+def declare_havoc(mk, inp):
+    """opt-in: one symbolic byte per external call, XOR-ed into all memory an external can name"""
+    inp["havoc"] = [mk.int(f"havoc{k}", 0, 255) for k in range(MAX_EXT)]
+    return inp
+
+
 def run_ref(module, fname, inp, ptr_bits=PTR_BITS, max_steps=300):
     """execute the reference semantics; returns (machine, result term or None)"""
     sem = irsem.IrSem(module, ptr_bits=ptr_bits, ext_results=inp["ext"], max_steps=max_steps,
                       init_globals=inp["glob"], buffers=inp["bufs"])
+    if inp.get("havoc"):
+        sem.ext_havoc = inp["havoc"]
+        sem.abstract_local_pointers = True
     f = find_function(module, fname)
     argv = []
     for (kind, v), p in zip(inp["args"], f.arguments):
@@ -101,7 +110,12 @@ def term_out(t):
 def observable(sem, r):
     """(return value, visible memory, external call trace) in harness-comparable form"""
     mem = {k: [term_out(b) for b in bs] for k, bs in sorted(sem.visible_memory().items())}
-    trace = [(n, [term_out(a) for a in args]) for n, args in sem.trace]
+    def targ(a):
+        if isinstance(a, irsem.LocalPointer):
+            # comparable form: (marker, size, offset, contents...) — the address itself is not observable
+            return [-1, a.size, term_out(a.off)] + [term_out(c) for c in a.contents]
+        return [term_out(a)]
+    trace = [(n, [x for a in args for x in targ(a)]) for n, args in sem.trace]
     return dict(ret=None if r is None else term_out(r), mem=mem, trace=trace)
 
 
